@@ -1220,6 +1220,11 @@ def audit(out: OutputBuffer, aconf: AuditConf, sshv: Optional[int] = None, print
         s.send_kexinit()  # Send the algorithms we support (except we don't since this isn't a real SSH connection).
 
         packet_type, payload = s.read_packet(sshv)
+
+        # A server may send MSG_IGNORE and MSG_DEBUG messages at any time, including before its MSG_KEXINIT (RFC 4253, section 11).  Skip them.
+        while (sshv == 2) and (packet_type in [Protocol.MSG_IGNORE, Protocol.MSG_DEBUG]):
+            packet_type, payload = s.read_packet(sshv)
+
         if packet_type < 0:
             try:
                 if len(payload) > 0:
